@@ -41,9 +41,15 @@ func newPool3() *pool3 {
 }
 
 type meshState3 struct {
+	key  string // canonical state key, taken before any query touches the mesh
 	m    *model3d.Mesh
 	ref  []*model3d.Triangle // insertion-ordered list of current faces
 	pool *pool3
+	// after a "fork" the original stays alive next to its Copy: edits of one must
+	// never show through the other
+	other     *model3d.Mesh
+	otherRef  []*model3d.Triangle
+	sinceFork int
 }
 
 func (s *meshState3) has(f *model3d.Triangle) int {
@@ -87,6 +93,15 @@ func (s *meshState3) apply(o meshOp) {
 		}
 	case "copy":
 		s.m = s.m.Copy()
+	case "fork":
+		s.other, s.otherRef = s.m, append([]*model3d.Triangle{}, s.ref...)
+		s.m = s.m.Copy()
+	case "swap":
+		s.m, s.other = s.other, s.m
+		s.ref, s.otherRef = s.otherRef, s.ref
+	}
+	if s.other != nil {
+		s.sinceFork++
 	}
 }
 
@@ -99,6 +114,18 @@ func (s *meshState3) canon() string {
 	}
 	built, fast, _ := model3d.VerifMeshIndexState(s.m)
 	key := fmt.Sprintf("3d|%x|%v|%v", mask, built, fast)
+	if s.other != nil {
+		omask := 0
+		for i, f := range s.pool.faces {
+			for _, t := range s.otherRef {
+				if t == f {
+					omask |= 1 << uint(i)
+				}
+			}
+		}
+		ob, of, _ := model3d.VerifMeshIndexState(s.other)
+		key += fmt.Sprintf("|fork:%x|%v|%v", omask, ob, of)
+	}
 	if built {
 		var sp []string
 		for _, v := range s.m.VertexSlice() {
@@ -117,8 +144,17 @@ func runMesh3(hist []meshOp) (*meshState3, string) {
 			return s, fmt.Sprintf("panic in step %d %v: %s", i+1, o, p)
 		}
 	}
+	// the key must be taken first: the queries below build the lazy index of this instance
+	s.key = s.canon()
 	var pr string
-	if p := ev.Try(func() { pr = meshq.Check3(s.m, s.ref, s.pool.verts, s.pool.faces) }); p != "" {
+	if p := ev.Try(func() {
+		pr = meshq.Check3(s.m, s.ref, s.pool.verts, s.pool.faces)
+		if pr == "" && s.other != nil {
+			if pr = meshq.Check3(s.other, s.otherRef, s.pool.verts, s.pool.faces); pr != "" {
+				pr = "the other mesh of a Copy pair (edited only through its twin): " + pr
+			}
+		}
+	}); p != "" {
 		pr = "panic in query: " + p
 	}
 	return s, pr
@@ -231,15 +267,31 @@ func bfsMesh3(r *ev.Run) {
 	for i := range p.faces {
 		ops = append(ops, meshOp{"add", i}, meshOp{"remove", i})
 	}
-	ops = append(ops, meshOp{"touch", 0}, meshOp{"addmesh", 0}, meshOp{"addmesh", 1}, meshOp{"copy", 0})
+	ops = append(ops, meshOp{"touch", 0}, meshOp{"addmesh", 0}, meshOp{"addmesh", 1}, meshOp{"copy", 0}, meshOp{"fork", 0}, meshOp{"swap", 0})
+	forkDepth := 3
+	if r.Thorough() {
+		forkDepth = 5
+	}
 	s0, _ := runMesh3(nil)
-	r.StateKey(s0.canon())
+	r.StateKey(s0.key)
 	frontier := [][]meshOp{nil}
 	fastSlow := 0
 	for len(frontier) > 0 {
 		var next [][]meshOp
 		for _, h := range frontier {
+			forked, since := false, 0
+			for _, x := range h {
+				if x.Op == "fork" {
+					forked = true
+				}
+				if forked {
+					since++
+				}
+			}
 			for _, o := range ops {
+				if (o.Op == "fork" || o.Op == "copy") && forked || o.Op == "swap" && !forked || forked && since >= forkDepth {
+					continue
+				}
 				hist := append(append([]meshOp{}, h...), o)
 				s, problem := runMesh3(hist)
 				r.Transitions(1)
@@ -249,15 +301,18 @@ func bfsMesh3(r *ev.Run) {
 					r.Violation("mesh3d/"+classifyMesh(problem), problem, meshCase{3, hist, ""})
 					continue
 				}
-				if !r.StateKey(s.canon()) {
+				if !r.StateKey(s.key) {
 					continue
 				}
-				if b, f, _ := model3d.VerifMeshIndexState(s.m); b && !f {
+				if strings.Contains(s.key, "|true|false") {
 					fastSlow++
 				}
 				next = append(next, hist)
 				if len(hist) == 5 {
 					r.Sample(meshCase{3, hist, ""})
+				}
+				if s.other != nil {
+					continue // derived meshes are checked in the unforked states
 				}
 				which, pr := derived3(s)
 				r.Eval(11)
